@@ -62,9 +62,12 @@ func baseScript(r *drv.Rng) []drv.SStep {
 	mk(drv.OpSpec{NI: 1, Kind: "ADD", T: "v4", Key: 3, NHG: 3})
 	mk(drv.OpSpec{NI: 2, Kind: "ADD", T: "v4", Key: 2, NHG: 1, NHGN: 1})
 	mk(drv.OpSpec{NI: 1, Kind: "ADD", T: "v6", Key: 2, NHG: 4})
+	mk(drv.OpSpec{NI: 1, Kind: "ADD", T: "v6", Key: 1, NHG: 3})
 	mk(drv.OpSpec{NI: 1, Kind: "ADD", T: "mpls", Key: 200, NHG: 4})
+	mk(drv.OpSpec{NI: 1, Kind: "ADD", T: "mpls", Key: 16, NHG: 1})
+	mk(drv.OpSpec{NI: 1, Kind: "ADD", T: "mpls", Key: 1048575, NHG: 3})
 	if r.Chance(1, 2) {
-		mk(drv.OpSpec{NI: 1, Kind: "ADD", T: "v6", Key: 1, NHG: 2}) // held: group 2 never arrives
+		mk(drv.OpSpec{NI: 1, Kind: "ADD", T: "v4", Key: 2, NHG: 2}) // held: group 2 never arrives
 	}
 	if r.Chance(1, 2) {
 		id2 := drv.U128{Lo: id.Lo + 1}
@@ -78,15 +81,31 @@ func baseScript(r *drv.Rng) []drv.SStep {
 func genC10(r *drv.Rng, base []drv.SStep, cut int, mode string) c10Case {
 	c := c10Case{SCase: drv.SCase{VRFs: []int{2, 3}}}
 	c.Steps = append(c.Steps, base[:cut]...)
-	ack := base[1].Ack // every live session must use the same parameters
+	// every live session must use the same parameters; when no negotiated session is live, the next one takes the
+	// other acknowledgement mode, so that anything a departed session left behind gets in its way
+	liveAck := map[int]int{}
+	if cut >= 2 {
+		liveAck[1] = base[1].Ack
+	}
+	lastAck := base[1].Ack
+	nextAck := func() int {
+		for _, a := range liveAck {
+			return a
+		}
+		lastAck = 1 - lastAck
+		return lastAck
+	}
 	if (mode == "sendfail" || mode == "sendfailbatch") && cut < 2 {
 		mode = "abort" // a transport failure is simulated on a response; an un-negotiated session has none coming
 	}
 	fault := func(mode string, s int) {
 		c.Faults = append(c.Faults, len(c.Steps))
+		if mode != "getcut" {
+			delete(liveAck, s)
+		}
 		switch mode {
 		case "getcut":
-			c.Steps = append(c.Steps, drv.SStep{K: "getcut", Cut: r.Intn(12), Stall: drv.Pick(r, 0, 0, 25), Get: &drv.GetSpec{NI: drv.Pick(r, "all", "name"), Name: 1, AFT: drv.Pick(r, "ALL", "ALL", "NHG", "IPV4", "NH")}})
+			c.Steps = append(c.Steps, drv.SStep{K: "getcut", Cut: r.Intn(16), Stall: drv.Pick(r, 0, 0, 25), Get: &drv.GetSpec{NI: drv.Pick(r, "all", "name"), Name: 1, AFT: drv.Pick(r, "ALL", "ALL", "NHG", "IPV4", "NH")}})
 		case "sendfailbatch":
 			// the transport fails while a request of several operations is being answered
 			k := 2 + r.Intn(4)
@@ -110,7 +129,7 @@ func genC10(r *drv.Rng, base []drv.SStep, cut int, mode string) c10Case {
 	probe := func() {
 		probeSeq++
 		c.Probes = append(c.Probes, len(c.Steps))
-		c.Steps = append(c.Steps, probeSteps(100+len(c.Probes), probeSeq, ack)...)
+		c.Steps = append(c.Steps, probeSteps(100+len(c.Probes), probeSeq, nextAck())...)
 	}
 	fault(mode, 1)
 	probe()
@@ -126,7 +145,9 @@ func genC10(r *drv.Rng, base []drv.SStep, cut int, mode string) c10Case {
 			negotiated := false
 			if r.Chance(2, 3) {
 				negotiated = true
-				c.Steps = append(c.Steps, drv.SStep{K: "params", S: s, Red: 1, Pers: 1, Ack: ack})
+				a := nextAck()
+				liveAck[s] = a
+				c.Steps = append(c.Steps, drv.SStep{K: "params", S: s, Red: 1, Pers: 1, Ack: a})
 				if r.Chance(1, 2) {
 					probeSeq++
 					id := drv.U128{Hi: 1 << 40, Lo: probeSeq}
@@ -216,12 +237,14 @@ func runC10(args []string) error {
 				c.Steps[c.Faults[0]].Cut = k % len(c.Steps[c.Faults[0]].Ops)
 				cases = append(cases, c)
 			}
-			for k := 0; k < 14; k++ {
-				c := genC10(r, base, len(base), "getcut")
-				c.Steps[c.Faults[0]].Cut = k
-				c.Steps[c.Faults[0]].Get = &drv.GetSpec{NI: "all", AFT: "ALL"}
-				c.Steps[c.Faults[0]].Stall = []int{0, 25}[k%2]
-				cases = append(cases, c)
+			for k := 0; k < 18; k++ {
+				for _, stall := range []int{0, 25} {
+					c := genC10(r, base, len(base), "getcut")
+					c.Steps[c.Faults[0]].Cut = k
+					c.Steps[c.Faults[0]].Get = &drv.GetSpec{NI: "all", AFT: "ALL"}
+					c.Steps[c.Faults[0]].Stall = stall
+					cases = append(cases, c)
+				}
 			}
 		}
 	}
